@@ -234,3 +234,37 @@ func fillObject(t *sim.Tape, p any, size int, salt uint64) {
 	f := &filler{t: t, size: size, ctr: salt << 20}
 	f.fill(reflect.ValueOf(p).Elem())
 }
+
+// sparsify empties some of the slices, byte strings and strings of a filled
+// object (at any depth of its exported structure): the second of two messages
+// is often the shorter one.
+func sparsify(t *sim.Tape, v reflect.Value) {
+	switch v.Kind() {
+	case reflect.Ptr:
+		if !v.IsNil() {
+			sparsify(t, v.Elem())
+		}
+	case reflect.Struct:
+		for i := 0; i < v.NumField(); i++ {
+			if v.Type().Field(i).IsExported() && v.Field(i).CanSet() {
+				sparsify(t, v.Field(i))
+			}
+		}
+	case reflect.Slice:
+		if v.Len() > 0 && t.Chance(1, 3) {
+			if t.Chance(1, 2) {
+				v.Set(reflect.Zero(v.Type()))
+			} else {
+				v.Set(v.Slice(0, v.Len()/2))
+			}
+			return
+		}
+		for i := 0; i < v.Len(); i++ {
+			sparsify(t, v.Index(i))
+		}
+	case reflect.String:
+		if v.Len() > 0 && t.Chance(1, 3) {
+			v.SetString("")
+		}
+	}
+}
